@@ -62,3 +62,25 @@ func ownsAny(prefixes ...string) func(string) bool {
 }
 
 func amt(n int64) string { return fmt.Sprint(n) }
+
+// pairLetters: every ordered pair (a, b) of the given single-block letters as one block that carries the
+// transactions of a followed by those of b (the 0 s block-time gap: two operations that meet in the same
+// block, in both orders, including the same operation twice). The transactions of both halves are built
+// from the model state before the block; the model then executes them one after the other.
+func pairLetters(core ...Action) []Action {
+	var out []Action
+	for i := range core {
+		for j := range core {
+			a, b := core[i], core[j]
+			if a.Gov != nil || b.Gov != nil || a.Txs == nil || b.Txs == nil {
+				continue
+			}
+			en := func(m *model.State, aux map[string]int) bool {
+				return (a.Enabled == nil || a.Enabled(m, aux)) && (b.Enabled == nil || b.Enabled(m, aux))
+			}
+			out = append(out, Action{Name: a.Name + ";" + b.Name, Dt: a.Dt, NextTime: a.NextTime, Enabled: en,
+				Txs: func(m *model.State) []model.Tx { return append(append([]model.Tx{}, a.Txs(m)...), b.Txs(m)...) }})
+		}
+	}
+	return out
+}
